@@ -611,7 +611,61 @@ fn run_igsx(bytes: &[u8], with_ops: bool) -> StreamResult {
     StreamResult { fail, ops, ran, outcomes }
 }
 
+/// one IGS stream of block commands against the COST functions of the model (`Drv/Igsx.lean`, request `igsx cost`): the
+/// hook counter `VERIF_PIXEL_OPS` (calls of `set_pixel` / `get_pixel`) is read around every character; observation = pixel
+/// accesses of the whole stream and the largest number for one character.  Oracle (on the real code alone): no panic, no
+/// slow character, and no character makes more than 2 x width x height pixel accesses (the canvas of the resolution in
+/// force; every block operation reads and writes each cell at most once)
+fn run_igsc(bytes: &[u8], with_ops: bool) -> StreamResult {
+    use std::sync::atomic::Ordering::Relaxed;
+    let mut s = IgsSession::new();
+    let mut outcomes = String::with_capacity(bytes.len());
+    let mut fail = None;
+    let mut ran = 0usize;
+    let (mut total, mut mx) = (0u64, 0u64);
+    for (j, b) in bytes.iter().enumerate() {
+        progress(j);
+        let c0 = igs::VERIF_PIXEL_OPS.load(Relaxed);
+        let t0 = Instant::now();
+        let r = s.feed(*b as char);
+        let dt = t0.elapsed().as_millis();
+        let d = igs::VERIF_PIXEL_OPS.load(Relaxed) - c0;
+        let o = outcome_letter(&r);
+        outcomes.push(o);
+        if let Err(loc) = &r {
+            fail = Some((format!("panic:{}", panic_site(loc)), format!("print_char panicked at {} on character {} of the stream", loc, j), j));
+            break;
+        }
+        if o != 'n' {
+            ran += 1;
+        }
+        total += d;
+        mx = mx.max(d);
+        if d > 2 * 320 * 200 {
+            // the canvas in force (the block commands do not change the resolution)
+            let p = &mut s.parser;
+            let (w, h) = match catch(AssertUnwindSafe(|| p.get_picture_data())) {
+                Ok(Some((size, _))) => (size.width as u64, size.height as u64),
+                _ => (320, 200),
+            };
+            if d > 2 * w * h {
+                fail = Some((format!("cost:igs:{}", igs_cmd_at(bytes, j)), format!("the command ending at character {} made {} pixel accesses on a {}x{} canvas (more than 2 x width x height = {}): its cost follows the coordinate values, not the canvas size", j, d, w, h, 2 * w * h), j));
+                break;
+            }
+        }
+        if dt > SLOW_CHAR_MS {
+            fail = Some((format!("slow:igs:{}", igs_cmd_at(bytes, j)), format!("character {} took {} ms", j, dt), j));
+            break;
+        }
+    }
+    let ops = if with_ops && fail.is_none() { Some((format!("igsx cost {}", hex(bytes)), format!("{} {} ok", total, mx))) } else { None };
+    StreamResult { fail, ops, ran, outcomes }
+}
+
 fn run_stream(kind: &str, bytes: &[u8], with_ops: bool) -> StreamResult {
+    if kind == "igsc" {
+        return run_igsc(bytes, with_ops);
+    }
     if kind == "rip" {
         run_rip(bytes, with_ops)
     } else if kind == "ripc" {
@@ -826,10 +880,88 @@ fn case_bgi(payload: &str, outs: &mut Vec<Out>) {
     }
 }
 
+/// `ript:<font>,<direction>,<size>,<hex text>`: `|Y` with these three fields (two base-36 digits each), the style it leaves
+/// (correspondence with `Model/RipText.lean`: FontType variant, direction, clamped size), then the text drawn with every text
+/// command — `|@` (out_text_xy), `|T` (out_text), a button label (`|1B` centred style + `|1U`: get_text_size + out_text_xy).
+/// Oracle: no panic, no slow character.
+fn case_ript(payload: &str, outs: &mut Vec<Out>) {
+    let f: Vec<&str> = payload.split(',').collect();
+    if f.len() != 4 {
+        return;
+    }
+    let (font, dir, size) = (f[0].parse::<u32>().unwrap_or(0) % 1296, f[1].parse::<u32>().unwrap_or(0) % 1296, f[2].parse::<u32>().unwrap_or(0) % 1296);
+    let text: Vec<u8> = if f[3] == "-" { Vec::new() } else { unhex(f[3]) };
+    let mut s = RipSession::new();
+    let mut head: Vec<u8> = b"!|Y".to_vec();
+    head.extend(b36(font, 2));
+    head.extend(b36(dir, 2));
+    head.extend(b36(size, 2));
+    head.extend_from_slice(b"00|");
+    let mut fail: Option<(String, String)> = None;
+    let mut feed_all = |s: &mut RipSession, bytes: &[u8], what: &str, fail: &mut Option<(String, String)>| {
+        for (j, b) in bytes.iter().enumerate() {
+            if fail.is_some() {
+                return;
+            }
+            let t0 = Instant::now();
+            let r = s.feed(*b as char);
+            if let Err(loc) = &r {
+                *fail = Some((format!("panic:{}", panic_site(loc)), format!("print_char panicked at {} on character {} of {} after |Y font {} direction {} size {}", loc, j, what, font, dir, size)));
+            } else if t0.elapsed().as_millis() > SLOW_CHAR_MS {
+                *fail = Some((format!("slow:rip:{}", what), format!("character {} of {} took more than {} ms", j, what, SLOW_CHAR_MS)));
+            }
+        }
+    };
+    feed_all(&mut s, &head, "|Y", &mut fail);
+    let variant = {
+        use icy_engine::rip::bgi::FontType as F;
+        match s.parser.bgi.get_font_type() {
+            F::Default => "Default",
+            F::Triplex => "Triplex",
+            F::Small => "Small",
+            F::SansSerif => "SansSerif",
+            F::Gothic => "Gothic",
+            F::Script => "Script",
+            F::Simplex => "Simplex",
+            F::TriplexScript => "TriplexScript",
+            F::Complex => "Complex",
+            F::European => "European",
+            F::BoldOutline => "BoldOutline",
+            F::User => "User",
+        }
+    };
+    let d = match s.parser.bgi.get_text_direction() {
+        icy_engine::rip::bgi::Direction::Horizontal => 0,
+        icy_engine::rip::bgi::Direction::Vertical => 1,
+    };
+    let sz = s.parser.bgi.get_font_size();
+    let mut t1 = b"@0A0A".to_vec(); // (the |Y command above ended with the `|` that starts this one)
+    t1.extend_from_slice(&text);
+    t1.extend_from_slice(b"|m1414|T");
+    t1.extend_from_slice(&text);
+    t1.push(b'|');
+    feed_all(&mut s, &t1, "|@ / |T", &mut fail);
+    let text_fail = fail.is_some();
+    let mut t2 = b"1B0A0A020274030F080F080700010E07000000|1U0A0A2K1E0000<>".to_vec();
+    t2.extend_from_slice(&text);
+    t2.extend_from_slice(b"<>|#|#|#\n");
+    feed_all(&mut s, &t2, "button label", &mut fail);
+    outs.push(Out::Count(format!("ript:font:{}", variant)));
+    outs.push(Out::Count(format!("ript:size:{}", match size { 0 => "0", 1..=9 => "1..9", 10 => "10", 11 => "11", 12..=36 => "12..36", _ => ">36" })));
+    outs.push(Out::Count(format!("ript:text:{}", if text.is_empty() { "empty" } else if text.iter().any(|c| *c >= 0x80) { "high-codes" } else { "ascii" })));
+    let obs = format!("{} {} {} {}", variant, d, sz, if text_fail && fail.as_ref().map(|f| f.0.starts_with("panic")).unwrap_or(false) { "panic" } else { "ok" });
+    outs.push(Out::Nt(fnv(obs.bytes().map(|x| x as u64).chain([font as u64, size as u64]))));
+    outs.push(Out::Case(format!("ript style {} {} {} {}", font, dir, size, if text.is_empty() { "-".to_string() } else { hex(&text) }), obs));
+    if let Some((key, what)) = fail {
+        outs.push(Out::Fail(key, format!("ript:{}", payload), what));
+    }
+}
+
 fn process(input: &str, outs: &mut Vec<Out>) {
     let (kind, payload) = input.split_once(':').unwrap_or(("rip", input));
     match kind {
-        "rip" | "igs" | "ripc" | "igsx" => case_stream(kind, payload, outs),
+        "ript" => case_ript(payload, outs),
+        "rip" | "igs" | "ripc" | "igsx" | "igsc" => case_stream(kind, payload, outs),
         "bgi" => case_bgi(payload, outs),
         _ => {}
     }
@@ -1106,7 +1238,7 @@ pub fn igs_letters() -> Vec<u8> {
 }
 
 /// usual number of parameters of an IGS command (for the mostly-well-formed generator only)
-fn igs_arity(c: u8) -> usize {
+pub fn igs_arity(c: u8) -> usize {
     match c {
         b'A' | b'E' | b'T' | b'O' => 3,
         b'B' | b'U' | b'V' | b'K' => 5,
@@ -2077,6 +2209,18 @@ pub fn run(run: &mut Run, seed: u64, thorough: bool, replay: Option<&str>, corpu
         }
     }
     run.extra.push(("igs_loop_grid_cases".into(), n_loops.to_string()));
+    // IGS two-command sequences over the lexer state graph: a command abandoned in every lexer sub-state x every command kind
+    {
+        let mut buckets: Vec<String> = Vec::new();
+        let pairs = crate::c20fam::igs_pairs(thorough, &letters, &igs_arity, &mut |b: &str| buckets.push(b.to_string()));
+        for b in &buckets {
+            run.count(b);
+        }
+        run.extra.push(("igs_abandoned_pair_cases".into(), pairs.len().to_string()));
+        for p in pairs {
+            cases.push(format!("igs:.{}", hex(&p)));
+        }
+    }
     // 2. random streams from the complete tables
     let n_rand = if thorough { 30000 } else { 1500 };
     for _ in 0..n_rand {
@@ -2167,6 +2311,29 @@ pub fn run(run: &mut Run, seed: u64, thorough: bool, replay: Option<&str>, corpu
         cases.push(format!("igsx:.{}", hex(&igsx_stream(&mut rng))));
     }
     run.extra.push(("igs_canvas_streams".into(), n_igsx.to_string()));
+    // 5b. RIP text path: every |Y font / size combination (sizes 0..=36 and ZZ, every font number incl. beyond the table and
+    // wrapping as u8) followed by every text command
+    {
+        let t = crate::c20fam::rip_text_styles(thorough, &mut rng);
+        run.extra.push(("rip_text_style_cases".into(), t.len().to_string()));
+        cases.extend(t);
+    }
+    // 6. IGS block commands (blits, grabs, filled rectangles, boxes) with every combination of small / screen-sized / huge
+    // extents: cost correspondence + cost oracle (kind igsc) and canvas correspondence (kind igsx) on the same streams
+    {
+        let mut buckets: Vec<String> = Vec::new();
+        let blocks = crate::c20fam::igs_blocks(thorough, &mut |b: &str| buckets.push(b.to_string()));
+        for b in &buckets {
+            run.count(b);
+        }
+        run.extra.push(("igs_block_cost_streams".into(), blocks.len().to_string()));
+        for (i, b) in blocks.iter().enumerate() {
+            cases.push(format!("igsc:.{}", hex(b)));
+            if (thorough && i % 2 == 0) || i % 6 == 0 {
+                cases.push(format!("igsx:.{}", hex(b)));
+            }
+        }
+    }
     run.extra.push(("exhaustive_01Z_max_len".into(), max_len.to_string()));
     run.extra.push(("exhaustive_01Z_cases".into(), n_exh.to_string()));
     run.extra.push(("sampled_01Z_lengths".into(), format!("{}..={} ({} cases: constant strings{} + {} random per length and command)", max_len + 1, long_max, n_long, if thorough { ", single-position variations (RIP)" } else { "" }, samples)));
